@@ -183,6 +183,9 @@ def prof_C13(d, rng):
     if len(d["hooks"]) < 3:
         d["hooks"] = [h for h in W.HOOK_NAMES if rng.random() < 0.7]
     d["junit"] = False
+    d["hook_interrupts"] = rng.random() < 0.2
+    if d["hook_interrupts"] and not d["p_hook_fail"]:
+        d["p_hook_fail"] = 0.05
 
 
 # ---------------------------------------------------------------------------
